@@ -10,6 +10,11 @@ correspondence: EXHAUSTIVE sweep of the real API against the model (drv_grammar)
                 through addElement (empty parent, filled parent, check_grammar on/off), every (element, keyword)
                 through setAttribute, every element x {addText, addCDATA}, every constructor with each required
                 attribute left out and with keyword arguments (also on elements without attribute table), every factory.  Decision *and* exception class are compared.
+                Histories on ONE parent instance (model: OdfModel/GrammarHist.lean, theorems Props/C06/History.lean, driver `hist`/`histrow`):
+                for every (parent, child X) pair the checked addElement is asked while the parent already holds X unchecked (only / first /
+                last child; put there by check_grammar=False, appendChild, insertBefore, or by load() from a written package), after a
+                legal sibling, after a text node, after a removal; outcomes and childNodes are compared with the model, the decisions with
+                the schema, and the content.xml written afterwards is read back with expat.
 oracle:         the same observed decisions against the schema's answer (Lean semantics via the driver, cross-checked
                 by an independent Python reading of the .rng files in this file): a difference that is neither an
                 Exception nor a known finding is a violation, named by its row.
@@ -914,6 +919,284 @@ class Sweep(object):
                                    {'op': 'Element()', 'element': V.EN[e], 'given': [V.AN[a] for a in given], 'check_grammar': True}],
                                   'Element(<%s>) given %s: %s before and %s after load()' % (V.EN[e], [V.AN[a] for a in given], o0, o))
 
+    # ---- histories on ONE parent instance: the decision must not depend on what the parent already holds
+    def parent_history_fail(self, p, c, route, case, detail):
+        """case / detail may be callables: they are only worked out for the handful of witnesses that are reported"""
+        key = 'phist-' + route                                # a handful of witnesses per route, the rest is counted
+        self.reported[key] = self.reported.get(key, 0) + 1
+        self.chk.count('history_dependent_decisions')
+        self.chk.count('history_dependent_decisions_' + route)
+        if self.reported[key] > (6 if route == 'api' else 3):
+            return
+        self.chk.fail('history:children:%s>%s' % (self.V.EN[p], self.V.EN[c]), case() if callable(case) else case, detail() if callable(detail) else detail)
+
+    def judge_history(self, p, x, tpl, out, case_of, state_of, route='api'):
+        """oracle for one history on one parent: every checked addElement is accepted iff the SCHEMA permits that child
+        under that parent - whatever the parent held when the call was made; every unchecked call goes through.
+        A difference that the same call shows on a fresh, empty parent as well is a difference of the table row, which the
+        children() sweep has judged (exception / known finding / violation by its row); it is not repeated here."""
+        V, chk = self.V, self.chk
+        sch = V.S[p]['ch']; sany = -1 in sch
+        row = self.first_children[p]
+        for k, (code, a, b) in enumerate(tpl):
+            o = out[k]
+            c = x if a is None else a
+            if code == 'c':
+                want = sany or (c in sch)
+                if (o == '.') == want and o in '.C':
+                    continue
+                if o == row[c]:
+                    chk.count('history_row_difference_judged_by_children_sweep')
+                    continue
+                self.parent_history_fail(p, c, route, lambda: case_of(k),
+                                         lambda: 'checked addElement(%s) on a <%s> that holds %s: %s; the schema %s it; on an empty <%s> the same call: %s' % (
+                                             V.EN[c], V.EN[p], state_of(k), {'.': 'accepted', 'C': 'IllegalChild'}.get(o, o),
+                                             'permits' if want else 'does not permit', V.EN[p], {'.': 'accepted', 'C': 'IllegalChild'}.get(row[c], row[c])))
+                return
+            elif o != '.':
+                if self.cap('unchecked-history'):
+                    chk.fail('unchecked:children:%s>%s' % (V.EN[p], V.EN[c] if code in 'uai' else '#node'), case_of(k),
+                             'an unchecked call (%s) in a history on <%s> did not go through: %s' % (code, V.EN[p], o))
+                return
+
+    def run_ops(self, parent, tpl, x, spare=None):
+        """apply a history to one parent of the real library.  tpl: (code, child id or None = x, index);
+        codes: c checked addElement, u addElement(check_grammar=False), a appendChild, i insertBefore(new, childNodes[index] or None),
+        t addText(check_grammar=False), r removeChild(childNodes[index]).  A child that was refused (and is still detached)
+        is offered again by the next checked call of the same type - every other child is freshly made."""
+        Element, IllegalChild, Q = self.Element, self.element.IllegalChild, self.V.G.elems.items
+        out = []
+        spare = {} if spare is None else spare
+        i, N = 0, len(tpl)
+        while i < N:
+            # one try for the whole run; an exception other than IllegalChild marks its call with X and the run goes on behind it
+            try:
+                while i < N:
+                    code, a, b = tpl[i]
+                    c = x if a is None else a
+                    if code == 'c':
+                        ch = spare.pop(c, None) or Element(qname=Q[c], check_grammar=False)
+                        try:
+                            parent.addElement(ch)
+                            out.append('.' if ch.parentNode is parent and parent.childNodes[-1] is ch else '?')
+                        except IllegalChild:
+                            if ch.parentNode is None:
+                                spare[c] = ch; out.append('C')
+                            else:
+                                out.append('!')              # refused AND attached
+                    elif code == 'u':
+                        parent.addElement(Element(qname=Q[c], check_grammar=False), check_grammar=False); out.append('.')
+                    elif code == 'a':
+                        parent.appendChild(Element(qname=Q[c], check_grammar=False)); out.append('.')
+                    elif code == 'i':
+                        kids = parent.childNodes
+                        parent.insertBefore(Element(qname=Q[c], check_grammar=False), kids[b] if b < len(kids) else None); out.append('.')
+                    elif code == 't':
+                        parent.addText(u'x', check_grammar=False); out.append('.')
+                    elif code == 'r':
+                        if b < len(parent.childNodes):
+                            parent.removeChild(parent.childNodes[b])
+                        out.append('.')
+                    i += 1
+            except Exception:
+                out.append('X'); i += 1
+        return ''.join(out)
+
+    def kids_of(self, parent):
+        ids = self.V.G.elems.ids
+        return ','.join(str(ids.get(tuple(k.qname), '?')) if k.nodeType == 1 else 't' for k in parent.childNodes) or '-'
+
+    @staticmethod
+    def tpl_line(tpl):
+        return ','.join(('i%d:%s' % (b, 'X' if a is None else a)) if code == 'i' else ('r%d' % b) if code == 'r' else 't' if code == 't'
+                        else '%s%s' % (code, 'X' if a is None else a) for code, a, b in tpl)
+
+    def calls_of(self, tpl, x, upto=None):
+        V = self.V
+        names = {'c': 'addElement', 'u': 'addElement', 'a': 'appendChild', 'i': 'insertBefore', 't': 'addText', 'r': 'removeChild'}
+        calls = []
+        for code, a, b in (tpl if upto is None else tpl[:upto + 1]):
+            d = {'do': names[code]}
+            if code in 'cuai':
+                d['child'] = V.EN[x if a is None else a]
+            if code in 'cu':
+                d['check_grammar'] = (code == 'c')
+            if code == 't':
+                d['check_grammar'] = False
+            if code in 'ir':
+                d['index'] = b
+            calls.append(d)
+        return calls
+
+    def same_parent(self):
+        """For every ordered (parent, child X) pair, histories on ONE parent instance.  The states in which the checked
+        addElement is asked - first history, every pair: X is the only child (put there with check_grammar=False) and X is asked again;
+        then a different refused child Y.  Second history (every pair in the thorough tier and for parents with few refused children,
+        a drawn quarter of the children otherwise): X first with a legal sibling L added after it; X last again (appendChild);
+        a text node last; X first (insertBefore); X last (insertBefore(new, None)); after the first child was removed.
+        L (permitted) and Y (refused) are drawn per parent."""
+        chk, V, drv, Element = self.chk, self.V, self.drv, self.Element
+        Q = V.G.elems.items; n = V.n
+        thorough = chk.tier == 'thorough'
+        plans = []
+        for p in self.live:
+            row = self.first_children[p]
+            sch = V.S[p]['ch']; sany = -1 in sch
+            legal = [c for c in self.live if row[c] == '.' and (sany or c in sch)]
+            illegal = [c for c in self.live if row[c] == 'C' and not (sany or c in sch)]
+            L = chk.rng.choice(legal) if legal else None
+            Y = chk.rng.choice(illegal) if illegal else None
+            t1 = [('u', None, 0), ('c', None, 0)] + ([('c', Y, 0)] if Y is not None else [])
+            t2 = [('u', None, 0)] + ([('c', L, 0)] if L is not None else []) + \
+                 [('c', None, 0), ('a', None, 0), ('c', None, 0), ('t', None, 0), ('c', None, 0), ('i', None, 0), ('c', None, 0),
+                  ('i', None, 99), ('c', None, 0), ('r', None, 0), ('c', None, 0)]
+            second = list(self.live) if (thorough or len(illegal) <= 60) else [c for c in self.live if chk.rng.random() < 0.25]
+            plans.append((p, t1, t2, len(illegal), second))
+        lines = []
+        for p, t1, t2, _, second in plans:
+            lines += ['histrow %d %s' % (p, self.tpl_line(t1)), 'histrow %d %s %s' % (p, self.tpl_line(t2), ','.join(map(str, second)) or '-')]
+        ans = drv.batch(lines)
+        ncalls = 0
+        idstr = dict((q, str(i)) for q, i in V.G.elems.ids.items())
+        live = self.live
+        for j, (p, t1, t2, nill, second) in enumerate(plans):
+            m1 = ans[2 * j].split()[1:]; m2 = dict(zip(second, ans[2 * j + 1].split()[1:]))
+            qp = Q[p]
+            sch = V.S[p]['ch']; sany = -1 in sch
+            # what the SCHEMA says about every child of this parent, and from it the outcomes the property demands of a history
+            wantrow = ''.join('.' if (sany or c in sch) else 'C' for c in range(n))
+            nhist = 0
+            for tpl, model, xs in ((t1, m1, live), (t2, m2, second)):
+                fmt = ''.join(('#' if a is None else wantrow[a]) if code == 'c' else '.' for code, a, b in tpl)
+                spare = {}
+                for x in xs:
+                    parent = Element(qname=qp, check_grammar=False)
+                    out = self.run_ops(parent, tpl, x, spare)
+                    got = out + '/' + (','.join([idstr.get(k.qname, '?') if k.nodeType == 1 else 't' for k in parent.childNodes]) or '-')
+                    if got != model[x]:
+                        if len(chk.corr_diffs) >= 20:
+                            chk.count('corr_diffs_dropped')       # what corr_diff itself does then; the case is not spelled out
+                        else:
+                            chk.corr_diff({'op': 'parent-history', 'parent': V.EN[p], 'calls': self.calls_of(tpl, x)}, got, model[x],
+                                          'a history of calls on ONE parent: outcome per call (. returned, C IllegalChild) / childNodes afterwards')
+                    if out != fmt.replace('#', wantrow[x]):
+                        self.judge_history(p, x, tpl, out,
+                                           lambda k, tpl=tpl, x=x, p=p: {'op': 'parent-history', 'parent': V.EN[p], 'route': 'api', 'calls': self.calls_of(tpl, x, k)},
+                                           lambda k, tpl=tpl, x=x, p=p: self.describe_state(p, tpl, x, k))
+                nhist += len(xs); ncalls += len(xs) * len(tpl)
+            chk.corr(nhist)
+            chk.case(('parent-history', p), nontrivial=bool(V.S[p]['elem'] and nill),
+                     sample={'parent': V.EN[p], 'history': self.tpl_line(t1), 'second': self.tpl_line(t2), 'children': len(live)} if p % 131 == 0 else None)
+        chk.count('same_parent_history_calls', ncalls)
+
+    def describe_state(self, p, tpl, x, k):
+        """the child list of the parent just before call k of the history, by replaying the calls before it (names)"""
+        parent = self.Element(qname=self.V.G.elems.items[p], check_grammar=False)
+        self.run_ops(parent, tpl[:k], x)
+        V = self.V
+        ids = V.G.elems.ids
+        return '[%s]' % ', '.join((V.EN[ids[tuple(c.qname)]] if tuple(c.qname) in ids else str(c.qname)) if c.nodeType == 1 else '#text' for c in parent.childNodes)
+
+    # ---- the same question on parents that came with a loaded file
+    def loaded_parents(self):
+        """A text document is written that holds, for every parent element P, instances with children the schema refuses
+        (X last after a legal sibling; X first before a legal sibling; X the only child), attached unchecked - as another producer
+        might have written them.  After load() the checked addElement(X) is asked on the LOADED parent, a legal child is added,
+        X is asked again; then content.xml is written and read with expat: the children of every such parent must be the loaded
+        ones plus exactly the added ones the schema permits."""
+        import io
+        import xml.parsers.expat
+        from odf.opendocument import OpenDocumentText, load
+        chk, V, drv, Element = self.chk, self.V, self.drv, self.Element
+        Q = V.G.elems.items; ids = V.G.elems.ids
+        per_parent = 6 if chk.tier == 'thorough' else 2
+        TEXT = ids.get((u'urn:oasis:names:tc:opendocument:xmlns:office:1.0', u'text'))
+        plan = []
+        for p in self.live:
+            if Q[p][0].startswith('urn:oasis:names:tc:opendocument:xmlns:manifest') or p == TEXT:
+                continue
+            row = self.first_children[p]
+            sch = V.S[p]['ch']; sany = -1 in sch
+            legal = [c for c in self.live if row[c] == '.' and (sany or c in sch)]
+            illegal = [c for c in self.live if row[c] == 'C' and not (sany or c in sch)]
+            if not illegal:
+                continue
+            for x in chk.rng.sample(illegal, min(per_parent, len(illegal))):
+                L = chk.rng.choice(legal) if legal else None
+                for shape in ('last', 'first'):
+                    init = ([L] if L is not None else []) + [x] if shape == 'last' else [x] + ([L] if L is not None else [])
+                    tpl = [('c', x, 0)] + ([('c', L, 0)] if L is not None else []) + [('c', x, 0), ('t', None, 0), ('c', x, 0)]
+                    plan.append((p, x, init, tpl))
+        doc = OpenDocumentText()
+        try:
+            for p, x, init, tpl in plan:
+                P = Element(qname=Q[p], check_grammar=False)
+                for c in init:
+                    P.addElement(Element(qname=Q[c], check_grammar=False), check_grammar=False)
+                doc.text.addElement(P, check_grammar=False)
+            buf = io.BytesIO(); doc.save(buf); buf.seek(0)
+            doc2 = load(buf)
+        except Exception as ex:
+            chk.notes.append('loaded_parents: the document with %d unchecked parents could not be written and loaded (%s: %s); phase skipped' % (len(plan), type(ex).__name__, str(ex)[:80]))
+            chk.count('loaded_parents_skipped'); return
+        loaded = [k for k in doc2.text.childNodes if k.nodeType == 1]
+        if len(loaded) != len(plan):
+            chk.notes.append('loaded_parents: %d parents written, %d found after load(); phase skipped' % (len(plan), len(loaded)))
+            chk.count('loaded_parents_skipped'); return
+        lines = ['hist %d %s' % (p, ','.join(['u%d' % c for c in init] + [self.tpl_line(tpl)])) for p, x, init, tpl in plan]
+        ans = drv.batch(lines)
+        expected_written = []
+        for (p, x, init, tpl), P, m in zip(plan, loaded, ans):
+            sch = V.S[p]['ch']; sany = -1 in sch
+            have = [ids.get(tuple(k.qname)) if k.nodeType == 1 else 't' for k in P.childNodes]
+            if tuple(P.qname) != tuple(Q[p]) or have != init:
+                chk.count('loaded_parents_shape_changed_by_load'); expected_written.append(None); continue
+            out = self.run_ops(P, tpl, x)
+            chk.corr(); chk.count('loaded_parent_history_calls', len(tpl))
+            got = '.' * len(init) + out + ' ' + self.kids_of(P)
+            if 'ok ' + got != m:
+                chk.corr_diff({'op': 'parent-history', 'route': 'load', 'parent': V.EN[p], 'initial': [V.EN[c] for c in init], 'calls': self.calls_of(tpl, x)}, got, m,
+                              'a history of calls on a parent that load() built: outcome per call / childNodes afterwards')
+            case_of = lambda k, p=p, x=x, init=init, tpl=tpl: {'op': 'parent-history', 'parent': V.EN[p], 'route': 'load', 'initial': [V.EN[c] for c in init],
+                                                            'calls': self.calls_of(tpl, x, k)}
+            self.judge_history(p, x, tpl, out, case_of, lambda k, init=init: 'the loaded children [%s] (+ what the calls before added)' % ', '.join(V.EN[c] for c in init), route='load')
+            expected_written.append(init + [c for code, c, b in tpl if code == 'c' and (sany or c in sch)])
+            chk.case(('loaded-parent', p, x, tuple(init)), nontrivial=True,
+                     sample={'parent': V.EN[p], 'loaded_children': [V.EN[c] for c in init], 'asked': V.EN[x], 'outcomes': out} if len(expected_written) % 401 == 0 else None)
+        # what is written afterwards, read with expat: element children of the children of office:text, in order
+        try:
+            data = doc2.contentxml()
+        except Exception as ex:
+            chk.notes.append('loaded_parents: contentxml() after the histories raised %s' % type(ex).__name__); return
+        OFFICE_TEXT = u'urn:oasis:names:tc:opendocument:xmlns:office:1.0 text'
+        stack, written = [], []
+        def start(name, attrs):
+            if len(stack) == 3 and stack[-1] == OFFICE_TEXT:
+                written.append((name, []))
+            elif len(stack) == 4 and stack[2] == OFFICE_TEXT and written:
+                written[-1][1].append(name)
+            stack.append(name)
+        def end(name):
+            stack.pop()
+        ps = xml.parsers.expat.ParserCreate(namespace_separator=' ')
+        ps.StartElementHandler = start; ps.EndElementHandler = end
+        ps.Parse(data, True)
+        if len(written) != len(plan):
+            chk.notes.append('loaded_parents: %d parents expected in the written content.xml, %d found' % (len(plan), len(written))); return
+        key = lambda c: u'%s %s' % (Q[c][0], Q[c][1]) if Q[c][0] else Q[c][1]
+        for (p, x, init, tpl), exp, (wname, wkids) in zip(plan, expected_written, written):
+            if exp is None:
+                continue
+            chk.count('written_parents_read_back')
+            if wname != key(p):
+                chk.count('loaded_parents_shape_changed_by_load'); continue
+            if wkids != [key(c) for c in exp]:
+                row = self.first_children[p]
+                if all(row[c] == ('.' if (-1 in V.S[p]['ch'] or c in V.S[p]['ch']) else 'C') for code, c, b in tpl if code == 'c'):
+                    self.parent_history_fail(p, x, 'load', {'op': 'parent-history', 'parent': V.EN[p], 'route': 'load', 'initial': [V.EN[c] for c in init], 'calls': self.calls_of(tpl, x)},
+                                             'content.xml written after the history holds <%s> with %d element children; the loaded ones plus the added ones the schema permits are %d (%s)' % (
+                                                 V.EN[p], len(wkids), len(exp), ', '.join(V.EN[c] for c in exp)))
+
     # ---- factories
     def factories(self):
         chk, V, drv = self.chk, self.V, self.drv
@@ -1099,6 +1382,7 @@ def load_sample_packages():
 
 
 SLICES = ['OdfModel.Props.C06.S%02d' % i for i in range(16)]
+HIST = ['OdfModel.Props.C06.History']          # histories on one parent (model: OdfModel/GrammarHist.lean)
 AUX = ['OdfModel.Props.C06.Defs', 'OdfModel.Props.C06.Schema', 'OdfModel.Props.C06.Kw', 'OdfModel.Props.C06.Fuel']
 
 
@@ -1106,7 +1390,8 @@ def run(chk, replay=None):
     chk.rule = ('exhaustive: every ordered (parent, child) pair of all element names known to the schemas, odf/grammar.py or the '
                 'factories (addElement on an empty and on a filled parent, checks on and off), every (element, keyword) pair, '
                 'every element x {addText, addCDATA}, every constructor with each single required attribute left out, every '
-                'factory; non-trivial = the element is declared by the shipped schemas')
+                'factory; histories of calls on one parent (the child asked for is already there, unchecked: only/first/last child, via '
+                'check_grammar=False / appendChild / insertBefore / load) for every pair; non-trivial = the element is declared by the shipped schemas')
     try:
         G = tg.translate(common.REPO)
     except common.InfraError:
@@ -1136,7 +1421,7 @@ def run(chk, replay=None):
         drv = chk.driver('drv_grammar')
         V = load_model(chk, G, drv)
         return replay_one(chk, V, Sweep(chk, V, drv), replay)
-    chk.prove(modules=['OdfModel.Props.C06'] + SLICES + AUX, drivers=['drv_grammar'])
+    chk.prove(modules=['OdfModel.Props.C06'] + SLICES + AUX + HIST, drivers=['drv_grammar'])
     drv = chk.driver('drv_grammar')
     V = load_model(chk, G, drv)
     check_second_opinion(chk, V)
@@ -1150,7 +1435,8 @@ def run(chk, replay=None):
     sw.constructible()
     import traceback
     for name, phase in (('children', sw.children), ('text', sw.text), ('attrs', sw.attributes), ('ctor', sw.constructors),
-                        ('ctorkw', sw.constructor_keywords), ('factories', sw.factories), ('islands', sw.islands), ('after_load', sw.after_load)):
+                        ('ctorkw', sw.constructor_keywords), ('factories', sw.factories), ('islands', sw.islands), ('same_parent', sw.same_parent),
+                        ('loaded_parents', sw.loaded_parents), ('after_load', sw.after_load)):
         t = time.time()
         try:
             phase()
@@ -1217,6 +1503,40 @@ def replay_one(chk, V, sw, rp):
             same = len(set(checked)) <= 1
             print('replay: the checked calls %s' % ('agree' if same else 'DIFFER: the decision depends on the call history'))
             return 0 if same else 1
+        if op == 'parent-history':
+            # a history of calls on ONE parent (made afresh, or written to a package and load()ed with its initial children)
+            p = eid[inp['parent']]
+            if inp.get('route') == 'load':
+                import io
+                from odf.opendocument import OpenDocumentText, load
+                doc = OpenDocumentText()
+                P0 = Element(qname=Q[p], check_grammar=False)
+                for cn in inp.get('initial', []):
+                    P0.addElement(Element(qname=Q[eid[cn]], check_grammar=False), check_grammar=False)
+                doc.text.addElement(P0, check_grammar=False)
+                buf = io.BytesIO(); doc.save(buf); buf.seek(0)
+                parent = [k for k in load(buf).text.childNodes if k.nodeType == 1][0]
+                print('replay: <%s> with children %s written to a package and loaded' % (inp['parent'], inp.get('initial', [])))
+            else:
+                parent = Element(qname=Q[p], check_grammar=False)
+            code = {'appendChild': 'a', 'insertBefore': 'i', 'addText': 't', 'removeChild': 'r'}
+            bad = 0
+            for call in inp['calls']:
+                cd = code.get(call['do']) or ('c' if call.get('check_grammar', True) else 'u')
+                c = eid[call['child']] if 'child' in call else None
+                o = sw.run_ops(parent, [(cd, c, call.get('index', 0))], c)
+                line = 'replay: %s(%s)%s -> %s' % (call['do'], call.get('child', ''), '' if cd != 'u' else ' check_grammar=False', {'.': 'returned', 'C': 'IllegalChild'}.get(o, o))
+                if cd == 'c':
+                    want = sw.schema_child(p, c)
+                    fresh = sw.run_ops(Element(qname=Q[p], check_grammar=False), [('c', c, 0)], c)
+                    line += '; the schema %s it; on an empty <%s>: %s' % ('permits' if want else 'does not permit', inp['parent'], {'.': 'accepted', 'C': 'IllegalChild'}.get(fresh, fresh))
+                    if o != fresh or (o != ('.' if want else 'C') and o not in '.C'):
+                        bad += 1; line += '   <-- depends on what the parent holds'
+                elif o != '.':
+                    bad += 1
+                print(line)
+            print('replay: childNodes afterwards: %s' % sw.kids_of(parent))
+            return 1 if bad else 0
         if op == 'addElement' and ('parent_qname' in inp or 'child_qname' in inp):
             pq = tuple(inp['parent_qname']) if 'parent_qname' in inp else Q[eid[inp['parent']]]
             cq = tuple(inp['child_qname']) if 'child_qname' in inp else Q[eid[inp['child']]]
